@@ -102,9 +102,13 @@ func Mul(x, y Number) Number {
 
 // Inv returns the dual inverse of d.
 func Inv(d Number) Number {
+	// (d₁+d₂ϵ)⁻¹ = d₁⁻¹ - d₁⁻¹d₂d₁⁻¹ϵ, with d₁⁻¹ = d̅₁/|d₁|².
+	c := quat.Conj(d.Real)
+	a := quat.Abs(d.Real)
+	s := 1 / (a * a)
 	return Number{
 		Real: quat.Inv(d.Real),
-		Dual: quat.Scale(-1, quat.Mul(d.Dual, quat.Inv(quat.Mul(d.Real, d.Real)))),
+		Dual: quat.Scale(-s, quat.Scale(s, quat.Mul(quat.Mul(c, d.Dual), c))),
 	}
 }
 
